@@ -326,24 +326,29 @@ where
         true
     }
 
+    // `xmlns="..."` and `xmlns:p="..."` declare namespaces; `p:xmlns="..."` is an
+    // ordinary attribute.
+    fn is_ns_declaration(attr: &Attribute) -> bool {
+        attr.name.prefix == Some(namespace_prefix!("xmlns"))
+            || (attr.name.prefix.is_none() && attr.name.local == local_name!("xmlns"))
+    }
+
     fn process_namespaces(&self, tag: &mut Tag) {
         // List of already present namespace local name attribute pairs.
         let mut present_attrs: HashSet<(Namespace, LocalName)> = Default::default();
 
         let mut new_attr = vec![];
         // First we extract all namespace declarations
-        for attr in tag.attrs.iter_mut().filter(|attr| {
-            attr.name.prefix == Some(namespace_prefix!("xmlns"))
-                || attr.name.local == local_name!("xmlns")
-        }) {
+        for attr in tag.attrs.iter_mut().filter(|attr| Self::is_ns_declaration(attr)) {
             self.declare_ns(attr);
         }
 
         // Then we bind those namespace declarations to attributes
-        for attr in tag.attrs.iter_mut().filter(|attr| {
-            attr.name.prefix != Some(namespace_prefix!("xmlns"))
-                && attr.name.local != local_name!("xmlns")
-        }) {
+        for attr in tag
+            .attrs
+            .iter_mut()
+            .filter(|attr| !Self::is_ns_declaration(attr))
+        {
             if self.bind_attr_qname(&mut present_attrs, &mut attr.name) {
                 new_attr.push(attr.clone());
             }
